@@ -273,11 +273,13 @@ def _run(chk):
 
     # ---- oracle on whole stores (three stream kinds) and single objects
     store_terms = []
-    for i in range(n_store):
+    n_sweep = 2
+    for i in range(-n_sweep, n_store):
         how = STREAM_KINDS[i % len(STREAM_KINDS)]
         g = aasgen.Gen(rng, strings="json" if i % 2 else "plain", depth=3)
         try:
-            store = g.store(rng.randint(1, 4))
+            # stores -2, -1: the deterministic sweep (every edge value of every XSD type in all four typed holders)
+            store = g.sweep_store() if i < 0 else g.store(rng.randint(1, 4))
         except Exception as e:
             chk.tie_broken("generator", f"{type(e).__name__}: {e}")
             continue
